@@ -510,3 +510,9 @@ var expectedParams = map[string]struct{ codecs, res, fps []string }{
 func H264Params(gen int) ([]byte, []byte) {
 	return h264SPSGen[gen], h264PPSGen[gen]
 }
+
+// IDBytes / ParseID expose the unit identity encoding to other drivers.
+func IDBytes(track, id, size int) []byte { return idBytes(track, id, size) }
+
+// ParseID decodes a unit identity.
+func ParseID(b []byte) (int, int, bool) { return parseID(b) }
